@@ -115,14 +115,8 @@ func genValidSpokfile(r *Rng) string {
 var coFlipVals = []byte{0x00, 0x80, 0xFF, '"', '{', '}', '(', ')', '#', '\r', '\n', ' ', 'a', 'Z', ':', '=', ',', '-', '>', 0xC3, '\t', '_', '0'}
 
 func (corruptScen) Gen(r *Rng, cfg GenConfig) any {
-	var base string
-	for tries := 0; tries < 20; tries++ {
-		base = genValidSpokfile(r)
-		if _, err := parser.New(base).Parse(); err == nil {
-			break
-		}
-		base = "task ok() {}\n"
-	}
+	// generation never calls the system under test (a panic there would kill the worker outside any case)
+	base := genValidSpokfile(r)
 	c := &CorruptCase{Base: []byte(base), CLI: r.Chance(1, 3) && !strings.Contains(base, "exec(")}
 	if len(base) <= 400 && r.Chance(1, 8) {
 		c.EnumTrunc = true
